@@ -45,6 +45,13 @@ class Report:
             self.ob(e.rule, e.key, False, e.where, e.detail)
         except AnalysisError as e:
             self.errors.append(f"{what}: {e}")
+        except Exception as e:  # a rule group must not take the other groups' findings down with it
+            from .guards import Raised, Returned, Unsupported
+
+            if isinstance(e, (Raised, Returned, Unsupported)):
+                self.errors.append(f"{what}: interpreted fragment left the rule's sub-language ({type(e).__name__}: {e})")
+            else:
+                raise
 
     def rule(self, rid: str, text: str) -> None:
         self.rules[rid] = text
